@@ -56,3 +56,24 @@ Print Assumptions C11_untouched_keys_are_returned.
    and "at least once" cannot be "exactly once" under concurrency (a split can move a returned key) *)
 Definition C11_frozen_bound_refuted := FrozenEx.frozen_bound_refuted.
 Definition C11_duplicates_possible := DupEx.concurrent_duplicate_example.
+
+(* ---- the Go arithmetic this property rests on, AS TRANSLATED FROM THE CURRENT SOURCES by tools/gotrans
+   (gen/Funcs.v, operators in GoSem.v), equals the model's, for all values of the Go types ---- *)
+From Coq Require Import ZArith NArith Bool.
+From Pogreb Require Import Base Record Index GoSem FuncsIndexCheck FuncsRecordCheck FuncsLogCheck FuncsFSCheck.
+From Pogreb.gen Require Funcs Consts.
+Import Funcs.
+Open Scope Z_scope.
+
+Theorem C11_go_bucketIndex :
+  forall level split h : N, (level < 32)%N -> (split < 2 ^ 32)%N -> (h < 2 ^ 32)%N ->
+  go_bucketIndex (Z.of_N level) (Z.of_N split) (Z.of_N h) = Z.of_N (bucket_index level split h).
+Proof. exact bucketIndex_ok. Qed.
+Print Assumptions C11_go_bucketIndex.
+
+Theorem C11_go_split_advance :
+  forall level split : N, (level < 32)%N -> (split < 2 ^ level)%N ->
+  go_split_advance (Z.of_N level) (Z.of_N split) = (Z.of_N (fst (advance level split)), Z.of_N (snd (advance level split))).
+Proof. exact split_advance_ok. Qed.
+Print Assumptions C11_go_split_advance.
+
